@@ -334,6 +334,22 @@ def entries():
         f = o + ".csv"
         return Call(lambda: _m("static.sq").sq(W.sk[2], qvector=W.qv3f, outputfile=f).getresults(), files=[(f, "csv", ident, 6)])
 
+    # the default wave-vector set, the same system and range with each `onlypositive` option: results of one option must not
+    # depend on which of the others was computed before it (state shared between calls / objects)
+    for op in (False, True, "x"):
+        def mk(op=op):
+            def b(W, o):
+                f = o + ".csv"
+                return Call(lambda: _m("static.sq").sq(W.sk[2], qrange=4.5, onlypositive=op, outputfile=f).getresults(), files=[(f, "csv", ident, 6)])
+            return b
+        reg("static.sq.sq.getresults")(mk())
+        def mk2(op=op):
+            def b(W, o):
+                f = o + ".csv"
+                return Call(lambda: _m("static.sq").sq(W.sk2[2], qrange=5.0, onlypositive=op, outputfile=f).getresults(), files=[(f, "csv", ident, 6)])
+            return b
+        reg("static.sq.sq.getresults")(mk2())
+
     # ---- BOO 3D
     def boo3(W, weights=False):
         return W.obj("boo3w" if weights else "boo3", lambda: _m("static.boo").boo_3d(W.s3, 4, W.nb3, W.w3 if weights else None, W.ppp3, 10))
